@@ -186,6 +186,8 @@ class Gen:
     def conclusion(self, pool):
         c = self.c
         cls = c.pick(["K1", "K2", "K3"])
+        if c.chance(0.12):
+            return {"cls": cls, "kw": {}}  # a conclusion that uses none of the matched variables
         kw = {"p": self.var(pool)}
         if c.chance(0.6):
             kw["q"] = c.pick([self.var(pool), ["attr", self.var(pool), "a"]])
